@@ -106,7 +106,23 @@ func buildWorker(repo string) *build {
 		fatal2("BUILD-FAILED overlay: %v", err)
 	}
 	worker := filepath.Join(dir, "worker")
-	cmd := exec.Command("go", "build", "-race", "-tags", "verif", "-overlay", oj, "-o", worker, "./cmd/worker")
+	args := []string{"build", "-race", "-tags", "verif", "-overlay", oj, "-o", worker}
+	if repo != "/repo" {
+		// go.mod replaces the deps.dev modules with /repo/util/...; for another
+		// tree use a rewritten copy of go.mod (and its go.sum) via -modfile.
+		gm, err1 := os.ReadFile(filepath.Join(verifDir, "sim", "go.mod"))
+		gs, err2 := os.ReadFile(filepath.Join(verifDir, "sim", "go.sum"))
+		if err1 != nil || err2 != nil {
+			os.RemoveAll(dir)
+			fatal2("BUILD-FAILED reading go.mod/go.sum: %v %v", err1, err2)
+		}
+		mf := filepath.Join(dir, "go.mod")
+		os.WriteFile(mf, []byte(strings.ReplaceAll(string(gm), "=> /repo/", "=> "+repo+"/")), 0o644)
+		os.WriteFile(filepath.Join(dir, "go.sum"), gs, 0o644)
+		args = append(args, "-modfile="+mf)
+	}
+	args = append(args, "./cmd/worker")
+	cmd := exec.Command("go", args...)
 	cmd.Dir = filepath.Join(verifDir, "sim")
 	cmd.Env = goEnv()
 	out, err := cmd.CombinedOutput()
@@ -831,6 +847,12 @@ func cmdCheck(prop, tier string, seed uint64, repo string) int {
 		}
 	}
 	fmt.Printf("property=%s tier=%s seed=%d runs=%d ok=%d wall=%.1fs build=%.1fs new_violations=%d known=%d\n", prop, tier, seed, len(bt.lines), ok, bt.wall.Seconds(), b.wall.Seconds(), len(newKeys), len(knownSeen))
+	for _, l := range bt.lines {
+		if l.Status == "generator-error" {
+			fmt.Printf("INFRASTRUCTURE-ERROR run %d: the scenario generator produced an invalid scenario (%s); nothing is reported\n", l.Index, l.Config)
+			return 2
+		}
+	}
 	if ok < len(bt.lines)/2 {
 		fmt.Printf("INFRASTRUCTURE-ERROR fewer than half of the runs completed (budget/stall): the batch decides nothing\n")
 		return 2
@@ -1039,7 +1061,11 @@ func main() {
 	prop := fs.String("prop", "", "property id")
 	tier := fs.String("tier", "", "quick|thorough (default $VERIF_TIER or quick)")
 	file := fs.String("file", "", "replay file")
-	repo := fs.String("repo", "/repo", "repository under test")
+	defRepo := "/repo"
+	if v := os.Getenv("VERIF_REPO"); v != "" {
+		defRepo = v
+	}
+	repo := fs.String("repo", defRepo, "repository under test (VERIF_REPO)")
 	n := fs.Uint64("n", 200, "seeds for the determinism self-test")
 	fs.Parse(os.Args[2:])
 	seed := uint64(1)
